@@ -1,5 +1,5 @@
 """C19  Automatic sample size: first power of two outlasting 100x timer precision."""
-from lib.facts import direct_place, const_int, origins, place_fields, norm
+from lib.facts import direct_place, const_int, origins, place_fields, norm, nophi
 from lib import tables
 from .sampling import Sampling
 
@@ -76,7 +76,7 @@ def r19_1(ctx, S, prog, crate):
     if ctx.check(ok, "R19.1", [b.path, "multiple-is-quotient"], "the compared quantity is not a quotient", b.where(x)):
         num = b.prov.op_src(dm[1]["a"])
         den = b.prov.op_src(dm[1]["b"])
-        ctx.check(any(z.kind == "call" and z.a == "std::iter::Iterator::max_by_key" for z in num) and any(z.kind == "call" and z.a == "stats::sample::RawSample::duration" for z in num)
+        ctx.check(any(z.kind == "call" and z.a == "std::iter::Iterator::max_by_key" for z in num) and nophi(num) and any(z.kind == "call" and z.a == "stats::sample::RawSample::duration" for z in num)
                   and not any(z.kind == "call" and z.a == "time::timer::Timer::precision" for z in num), "R19.1", [b.path, "numerator-is-slowest-sample"],
                   "the numerator is not the slowest thread's sample duration", b.where(x))
         ctx.check(any(z.kind == "call" and z.a == "time::timer::Timer::precision" for z in den) and not any(z.kind == "call" and z.a == "std::iter::Iterator::max_by_key" for z in den),
